@@ -13,11 +13,13 @@ RULE = (
     "one coordinate: zero-length Line/Segment/HalfLine (Point-Point, Point-Vector, Vector-Vector forms); polygon "
     "with < 3 points, < 3 distinct points, collinear points, one vertex off the plane by >= 1/64; Plane with zero "
     "normal, collinear points, parallel vectors, (0,0,0,d); Parallelogram/Parallelepiped with zero, parallel or "
-    "coplanar edge vectors; Pyramid with apex in the base plane; open / over-closed / flat face sets; Circle and "
+    "coplanar edge vectors; Pyramid with apex in the base plane; open / over-closed / flat face sets (also two "
+    "disjoint faces and an open shell plus a detached polygon, which satisfy Euler's formula); Circle and "
     "get_circle_point_list with n < 3; get_segment_from_point_list on < 2 or non-collinear points; unsupported "
-    "operand type pairs (complement of each documented table, plus Vector and foreign values) for the module "
+    "operand type pairs (complement of each documented table, plus Vector, foreign and falsy values such as 0, '', (), "
+    "[], {}) for the module "
     "functions intersection/distance/angle/parallel/orthogonal/volume and the forwarding methods; move of every "
-    "type with a non-Vector. Oracle: the call must raise (any Exception for constructors/helpers; "
+    "type with a non-Vector (including (0,0,0), [0.0]*3, (), [], a Point, 0, False). Oracle: the call must raise (any Exception for constructors/helpers; "
     "NotImplementedError/ValueError/TypeError for the unsupported-operand and move groups); returning any value, "
     "including an exception instance, is the violation. Every case is invalid by exact construction, hence "
     "non-trivial; distinct = distinct (class, instance)."
